@@ -20,7 +20,8 @@ OWN_PATH = {"flags_sel"}
 
 def sparse_models(rnd, d):
     from gemclus.sparse import SparseLinearModel, SparseLinearMMD, SparseLinearMI, SparseMLPModel, SparseMLPMMD
-    g = rnd.choice([None, None, [[0, 1]], [[0, 2], [1]] if d >= 3 else [[0, 1]], [[0], [1]], [list(range(d))]])
+    g = rnd.choice([None, None, [[0, 1]], [[0, 2], [1]] if d >= 3 else [[0, 1]], [[0], [1]], [list(range(d))],
+                    [[2, 0], [1]] if d >= 3 else [[1, 0]], [[1], [2, 0]] if d >= 3 else [[1], [0]], [[d - 1]]])
     alpha = rnd.choice([0.0, 0.01, 0.3, 2.0, 20.0])
     common = dict(n_clusters=2, max_iter=rnd.choice([2, 4]), learning_rate=rnd.choice([0.05, 0.3]), solver=rnd.choice(["sgd", "adam"]),
                   batch_size=rnd.choice([None, 2, 3]), random_state=rnd.randint(0, 9), alpha=alpha)
